@@ -46,6 +46,13 @@ type Scenario struct {
 	Faults func(x *Exec, dir string, key int16, conn *Conn) []string
 	// NoTick disables the "tick" deviation (timer beats pending frames).
 	NoTick bool
+	// Free runs the scenario free: after Setup the proxy passes everything
+	// through, Steps do not park, and the controller neither decides anything
+	// nor calls synctest.Wait (a Wait is a happens-before edge for the race
+	// detector, which is what blinds it in controlled and burst stepping).
+	// Used by C41 only: one execution per cost-0 choice combination, judged
+	// by the race detector.
+	Free bool
 	// Slow marks events (by label) of a slow peer: they are ordered AFTER
 	// tick, so in the default schedule the clock wins against them and
 	// delivering one is a deviation.
@@ -175,6 +182,12 @@ func (t *Thread) Step(label string) {
 	x.mu.Lock()
 	if x.auto {
 		x.mu.Unlock()
+		if x.sc.Free {
+			// free-running pass: pace the script in virtual time so that
+			// timers (heartbeats, metadata refreshes, rebalances) interleave
+			// with the calls
+			time.Sleep(400 * time.Millisecond)
+		}
 		return
 	}
 	t.parked = label
@@ -943,6 +956,16 @@ func (x *Exec) run() {
 		maxPoints = 600
 	}
 	sc.Setup(x)
+	if sc.Free {
+		x.Auto()
+		for !x.ThreadsDone() && x.Elapsed() < horizon {
+			time.Sleep(25 * time.Millisecond) // virtual; no synctest.Wait in this phase
+		}
+		if sc.Final != nil {
+			sc.Final(x)
+		}
+		return
+	}
 	steps := 0
 	for {
 		synctest.Wait()
